@@ -26,6 +26,10 @@ def run(chk, tier):
     chk.rule("R-CMP", "best-of comparison cores decided over all orderings by folding")
     nc = tab.best_of(chk, P)
     chk.floor("R-CMP", "folded best-of cases", nc, 30)
+    chk.rule("R-CACHEINV", "a duplicated topology's memory attributes have their CACHE_VALID flag cleared and their cached object pointers reset, so that they are looked up again in the copy")
+    import dup as _dup
+    nci = _dup.cacheinv(chk, P)
+    chk.floor("R-CACHEINV", "cache invalidation facts on dup", nci, 2)
     chk.rule("R-EXTENT", "bulk operations on targets/initiators arrays agree on their extent")
     extent.run(chk, P, list(P.units), fields=set(FIELDS))
     chk.rule("R-GUARD", "Capacity/Locality are read-only (CONVENIENCE test dominates every store of set_value); readers refresh an invalid cache before using target objects")
@@ -56,7 +60,8 @@ def run(chk, tier):
                     yield x, "lookup"
         guards.dominated(chk, P, fn, "memattrs.c", uses, lambda st: V in st, "R-GUARD",
                          "stored targets are used only after the cache was found valid or hwloc__imattr_refresh ran", min_inst=1, canon=canon)
-    chk.decided += ["register: unique name loop and exactly one ordering flag (all words)", "*nr overflow convention: stores bounded by the caller's capacity, count reported",
+    chk.decided += ["after hwloc_topology_dup() the copy's cached targets/initiators are invalidated (values survive dup and are re-resolved against the copy)",
+                    "register: unique name loop and exactly one ordering flag (all words)", "*nr overflow convention: stores bounded by the caller's capacity, count reported",
                     "best-of queries keep the maximal/minimal value with first-wins ties (exhaustive fold over orderings)", "Capacity/Locality read-only",
                     "readers refresh before touching cached target objects"]
     chk.undecided += ["get_value returns the last value stored (array search semantics)", "overlapping cpuset initiators", "default nodeset disjointness"]
